@@ -94,7 +94,12 @@ def evaluate_expression(
     expression = Expr(expression)
     full_expr = model.statements.before_odes.full_expression(expression)
     inits = model.parameters.inits
-    mapping = inits if parameter_estimates is None else {**inits, **parameter_estimates}
+    if parameter_estimates is None:
+        mapping = inits
+    else:
+        # NOTE: inits are keyed by name. Use names for the given estimates as well
+        #       so that they replace the initial estimates also if keyed by symbol
+        mapping = {**inits, **{str(key): value for key, value in parameter_estimates.items()}}
     expr = full_expr.subs(mapping)
 
     df = model.dataset
